@@ -233,17 +233,18 @@ impl KeyValueStore {
                 while state.imm_trigger < state.mem_seq_no {
                     state = self.cnd_needs_memtable_flush.wait(state).unwrap();
                 }
+                // Create the new log before touching the state:  if that fails, the store must
+                // be left exactly as it was (memtable, log and immutable memtable still paired).
+                let mut imm_path = LOG_FILE(&self.root, state.seq_no);
+                let new_log =
+                    self.poison(Self::start_new_log(&imm_path, self.options.log.clone()))?;
                 let imm = Arc::clone(&state.mem);
                 let imm_log = Arc::clone(&state.mem_log);
                 let imm_trigger = state.mem_seq_no;
-                let mut imm_path = LOG_FILE(&self.root, state.seq_no);
                 std::mem::swap(&mut imm_path, &mut state.mem_path);
                 state.imm = Some(Arc::clone(&state.mem));
                 state.mem = Arc::new(MemTable::default());
-                state.mem_log = self.poison(Self::start_new_log(
-                    &state.mem_path,
-                    self.options.log.clone(),
-                ))?;
+                state.mem_log = new_log;
                 state.mem_seq_no = state.seq_no;
                 state.seq_no += 1;
                 let mut wait_guard = self.wait_list.link(());
